@@ -1,15 +1,339 @@
 package main
 
 import (
+	"encoding/json"
+	"flag"
 	"fmt"
-	"golang.org/x/tools/go/packages"
+	"os"
+	"path/filepath"
+	"runtime"
+	"sort"
+	"strconv"
+	"strings"
+	"time"
 )
 
-func main() {
-	cfg := &packages.Config{Mode: packages.NeedName | packages.NeedFiles | packages.NeedSyntax | packages.NeedTypes | packages.NeedTypesInfo | packages.NeedImports | packages.NeedDeps, Dir: "/repo", BuildFlags: []string{"-tags=verif"}}
-	pkgs, err := packages.Load(cfg, ".")
-	fmt.Println(len(pkgs), err)
-	for _, p := range pkgs {
-		fmt.Println(p.PkgPath, len(p.Syntax), p.Errors)
+func verifDir() string {
+	if d := os.Getenv("VERIF_DIR"); d != "" {
+		return d
 	}
+	exe, err := os.Executable()
+	if err == nil {
+		d := filepath.Dir(filepath.Dir(exe))
+		if _, err := os.Stat(filepath.Join(d, "MANIFEST.json")); err == nil {
+			return d
+		}
+	}
+	return "/verif"
+}
+
+func main() {
+	if len(os.Args) < 2 {
+		fmt.Fprintln(os.Stderr, "usage: govc check <id> [--tier quick|thorough] | replay <path> | list | selftest")
+		os.Exit(2)
+	}
+	switch os.Args[1] {
+	case "check":
+		fs := flag.NewFlagSet("check", flag.ExitOnError)
+		tier := fs.String("tier", "", "quick|thorough")
+		ignoreKnown := fs.Bool("ignore-known", false, "report known findings as violations (selftest canaries)")
+		verbose := fs.Bool("v", false, "verbose")
+		if len(os.Args) < 3 {
+			os.Exit(2)
+		}
+		id := os.Args[2]
+		fs.Parse(os.Args[3:])
+		if *tier == "" {
+			*tier = os.Getenv("VERIF_TIER")
+		}
+		if *tier == "" {
+			*tier = "quick"
+		}
+		os.Exit(runCheck(id, *tier, *ignoreKnown, *verbose))
+	case "replay":
+		os.Exit(runReplay(os.Args[2]))
+	case "list":
+		os.Exit(runList())
+	case "selftest":
+		os.Exit(runSelftest(os.Args[2:]))
+	default:
+		fmt.Fprintln(os.Stderr, "unknown command", os.Args[1])
+		os.Exit(2)
+	}
+}
+
+type knownFinding struct {
+	Kind, Prop, Obligation, Rest string
+}
+
+func loadKnown(path string) []knownFinding {
+	b, err := os.ReadFile(path)
+	if err != nil {
+		return nil
+	}
+	var out []knownFinding
+	for _, l := range strings.Split(string(b), "\n") {
+		l = strings.TrimSpace(l)
+		if l == "" || strings.HasPrefix(l, "#") {
+			continue
+		}
+		var k knownFinding
+		if strings.HasPrefix(l, "known:") {
+			k.Kind = "known"
+			l = strings.TrimSpace(l[6:])
+		} else if strings.HasPrefix(l, "fixed:") {
+			k.Kind = "fixed"
+			l = strings.TrimSpace(l[6:])
+		} else {
+			continue
+		}
+		for _, f := range strings.Fields(l) {
+			if strings.HasPrefix(f, "property=") {
+				k.Prop = f[9:]
+			} else if strings.HasPrefix(f, "obligation=") {
+				k.Obligation = f[11:]
+			}
+		}
+		k.Rest = l
+		out = append(out, k)
+	}
+	return out
+}
+
+func seedFromEnv() int {
+	s, _ := strconv.Atoi(os.Getenv("VERIF_SEED"))
+	return s
+}
+
+func runCheck(id, tier string, ignoreKnown, verbose bool) int {
+	t0 := time.Now()
+	vd := verifDir()
+	prog, err := loadProg(repoDir())
+	if err != nil {
+		fmt.Fprintln(os.Stderr, "load error:", err)
+		return 2
+	}
+	cs, err := parseContracts(filepath.Join(repoDir(), "contracts_verif.go"))
+	if err != nil {
+		fmt.Fprintln(os.Stderr, "contract error:", err)
+		return 2
+	}
+	g := newGen(prog, cs)
+	g.generate(id)
+	var obls []*Obligation
+	for _, o := range g.Obls {
+		if hasProp(o.Props, id) {
+			obls = append(obls, o)
+		}
+	}
+	if len(g.Errors) > 0 {
+		seen := map[string]bool{}
+		for _, e := range g.Errors {
+			if !seen[e] {
+				fmt.Fprintln(os.Stderr, "error:", e)
+				seen[e] = true
+			}
+		}
+		fmt.Fprintf(os.Stderr, "%d configuration/subset errors\n", len(seen))
+		return 2
+	}
+	if len(obls) == 0 {
+		fmt.Fprintf(os.Stderr, "no obligations generated for %s (vacuity guard)\n", id)
+		return 2
+	}
+	timeout := 10
+	all := false
+	if tier == "thorough" {
+		timeout = 60
+		all = true
+	}
+	work := filepath.Join(vd, "work", id)
+	os.RemoveAll(work)
+	jobs := runtime.NumCPU()
+	if all {
+		jobs = jobs / 2
+	}
+	if jobs < 1 {
+		jobs = 1
+	}
+	g.discharge(obls, work, timeout, all, jobs)
+	if tier == "thorough" {
+		g.thoroughExtras(id, &obls, work)
+	}
+
+	known := loadKnown(filepath.Join(vd, "known_findings.txt"))
+	isKnown := func(name string) *knownFinding {
+		if ignoreKnown {
+			return nil
+		}
+		for i, k := range known {
+			if k.Kind == "known" && k.Prop == id && k.Obligation == name {
+				return &known[i]
+			}
+		}
+		return nil
+	}
+	floor := loadFloor(filepath.Join(vd, "contracts", "floor.json"))
+	discharged, covers, coverFail := 0, 0, 0
+	var solverMs int64
+	var violations []string
+	var knownSeen []string
+	var perObl []map[string]any
+	var samples []any
+	nProof := 0
+	for _, o := range obls {
+		solverMs += o.Ms
+		rec := map[string]any{"name": o.Name, "result": o.Result, "backend": o.Backend, "ms": o.Ms, "clause": o.Text}
+		if o.Cover {
+			covers++
+			rec["kind"] = "cover"
+			if o.Result == "unsat" {
+				coverFail++
+				fmt.Printf("VACUOUS: %s: hypotheses are contradictory (%s)\n", o.Name, o.Backend)
+			}
+			perObl = append(perObl, rec)
+			continue
+		}
+		nProof++
+		perObl = append(perObl, rec)
+		if len(samples) < 3 && o.Result == "unsat" {
+			samples = append(samples, map[string]any{"obligation": o.Name, "clause": o.Text, "goal_smt": truncate(o.Goal, 600), "backend": o.Backend})
+		}
+		if o.Result == "unsat" {
+			discharged++
+			continue
+		}
+		if k := isKnown(o.Name); k != nil {
+			fmt.Printf("KNOWN-FINDING: property=%s %s\n", id, k.Rest)
+			knownSeen = append(knownSeen, o.Name)
+			continue
+		}
+		path := g.writeReplay(vd, id, o)
+		suffix := ""
+		if !o.ReplayConfirmed {
+			suffix = " no-failing-input-found"
+		}
+		violations = append(violations, fmt.Sprintf("VIOLATION property=%s replay=%s obligation=%s%s", id, path, o.Name, suffix))
+	}
+	// stale known findings: listed but the obligation is now discharged or gone
+	for _, k := range known {
+		if k.Kind == "known" && k.Prop == id && !ignoreKnown {
+			found := false
+			for _, n := range knownSeen {
+				if n == k.Obligation {
+					found = true
+				}
+			}
+			if !found {
+				fmt.Printf("NOTE: known finding no longer reproduces (stale): %s\n", k.Rest)
+			}
+		}
+	}
+	sort.Strings(violations)
+	for _, v := range violations {
+		fmt.Println(v)
+	}
+	if verbose {
+		for _, o := range obls {
+			fmt.Printf("  %-8s %-7s %5dms  %s\n", o.Result, o.Backend, o.Ms, o.Name)
+		}
+	}
+	exit := 0
+	if len(violations) > 0 {
+		exit = 1
+	}
+	if coverFail > 0 {
+		exit = 2
+	}
+	if fl, ok := floor[id]; ok && nProof < fl {
+		fmt.Printf("ERROR: %d obligations generated for %s, floor is %d (contracts lost?)\n", nProof, id, fl)
+		exit = 2
+	}
+	// evidence
+	var funcs []string
+	for f := range g.Funcs {
+		funcs = append(funcs, f)
+	}
+	sort.Strings(funcs)
+	assumptions := g.assumptionList(id)
+	if len(samples) == 0 && len(perObl) > 0 {
+		samples = append(samples, perObl[0])
+	}
+	ev := map[string]any{
+		"property_id": id,
+		"tier":        tier,
+		"seed":        seedFromEnv(),
+		"level":       "proof",
+		"coverage": map[string]any{
+			"obligations":              nProof,
+			"discharged":               discharged + len(knownSeen)*0,
+			"known_findings_seen":      knownSeen,
+			"undischarged":             nProof - discharged,
+			"checker_cmd":              fmt.Sprintf("bin/govc check %s --tier %s", id, tier),
+			"trusted_base":             g.trustedBase(),
+			"functions_under_contract": funcs,
+			"covers_sat":               covers - coverFail,
+			"covers_total":             covers,
+			"solver_ms_total":          solverMs,
+			"per_obligation":           perObl,
+			"samples":                  samples,
+			"bounded":                  g.Bounded,
+			"notes":                    dedup(g.Notes),
+			"backends":                 "race of z3 5.1.0 (z3-new), z3 4.8.12, cvc5 1.0.3" + ifs(tier == "thorough", "; all three run, no disagreement tolerated", "; first definite answer"),
+		},
+		"assumptions": assumptions,
+		"wall_s":      time.Since(t0).Seconds(),
+		"violations":  len(violations),
+	}
+	os.MkdirAll(filepath.Join(vd, "evidence"), 0o755)
+	b, _ := json.MarshalIndent(ev, "", " ")
+	os.WriteFile(filepath.Join(vd, "evidence", id+".json"), b, 0o644)
+	fmt.Printf("%s: %d obligations, %d discharged, %d known findings, %d violations, %d covers (%d vacuous), %.1fs\n", id, nProof, discharged, len(knownSeen), len(violations), covers, coverFail, time.Since(t0).Seconds())
+	return exit
+}
+
+func truncate(s string, n int) string {
+	if len(s) <= n {
+		return s
+	}
+	return s[:n] + "…"
+}
+
+func dedup(xs []string) []string {
+	seen := map[string]bool{}
+	var out []string
+	for _, x := range xs {
+		if !seen[x] {
+			seen[x] = true
+			out = append(out, x)
+		}
+	}
+	return out
+}
+
+func loadFloor(path string) map[string]int {
+	m := map[string]int{}
+	b, err := os.ReadFile(path)
+	if err == nil {
+		json.Unmarshal(b, &m)
+	}
+	return m
+}
+
+func runList() int {
+	prog, err := loadProg(repoDir())
+	if err != nil {
+		fmt.Fprintln(os.Stderr, err)
+		return 2
+	}
+	cs, err := parseContracts(filepath.Join(repoDir(), "contracts_verif.go"))
+	if err != nil {
+		fmt.Fprintln(os.Stderr, err)
+		return 2
+	}
+	_ = prog
+	for _, b := range cs.Blocks {
+		fmt.Printf("%-10s %-50s props=%v clauses=%d\n", b.Kind, b.ID(), b.Props, len(b.Clauses))
+	}
+	return 0
 }
